@@ -5,6 +5,7 @@ import ast
 from harness import extract
 from harness.core import cq_bool, cq_list, cq_opt, cq_str, err_kind
 from harness.extract import ExtractError, coq_string
+from harness.props import packed
 
 ID = "C12"
 CHECK_MODULE = "Deb822.MvCheck"
@@ -12,8 +13,9 @@ PROPS_FILE = "Props/C12.v"
 CLASSES = ["Dsc", "Changes", "BuildInfo", "PdiffIndex", "Release"]
 ANCHORS = [("lib/debian/deb822.py",
             ["_multivalued", "Dsc", "Changes", "BuildInfo", "PdiffIndex", "Release"])]
-BUDGET = {"quick": 2600, "thorough": 36000}
-SHARD_IMPORTS = "From Verif Require Import Deb822.Multivalued."
+BUDGET = {"quick": 1600, "thorough": 24000}
+SHARD = 200          # cases per Coq file (a case carries about 4 kB of text)
+SHARD_IMPORTS = "From Coq Require Import Uint63."
 
 
 # ---------------------------------------------------------------------------
@@ -341,14 +343,14 @@ def _malform(rng, cls, tbl, case):
     return kind
 
 
-def _line(rng, subs):
+def _line(rng, subs, clean=False):
     n = len(subs)
-    k = rng.choice([n, n, n, n, n - 1, n + 1, 1, 0])
+    k = n if clean else rng.choice([n, n, n, n, n - 1, n + 1, 1, 0])
     toks = [str(_token(rng, subs[j] if j < n else "x")) for j in range(max(k, 0))]
     sep = rng.choice([" ", " ", " ", "  ", "\t", " \t "])
     lead = rng.choice([" ", " ", " ", "\t", "  "])
     tail = rng.choice(["", "", "", " ", "\t", "\r"])
-    if rng.random() < 0.12 and toks:
+    if rng.random() < 0.12 and toks and not clean:
         j = rng.randrange(len(toks))
         toks[j] = toks[j] + rng.choice(["\x0c", "\x0b", "\x85", " ", "\x1c", "\x1f", "\xa0", "\r"]) + "q"
     if not toks:
@@ -362,13 +364,16 @@ def _text(rng, cls, tbl, subset):
     rng.shuffle(fields)
     out = []
     shapes = []
+    clean = rng.random() < 0.45        # every line complete, multi-line form only: the dump must succeed
+    if clean:
+        shapes.append("clean")
     for f in fields:
         key = _spell(rng, f)
-        shape = rng.choice(["multi", "multi", "multi", "multi", "firstline", "single", "empty", "emptysp"])
+        shape = "multi" if clean else rng.choice(["multi", "multi", "multi", "multi", "firstline", "single", "empty", "emptysp"])
         shapes.append(shape)
         if shape == "multi":
             out.append(key + ":" + rng.choice(["", "", " "]))
-            out += [_line(rng, order[f]) for _ in range(rng.randint(1, 4))]
+            out += [_line(rng, order[f], clean) for _ in range(rng.randint(1, 4))]
         elif shape == "firstline":
             out.append(key + ":" + _line(rng, order[f]))
             out += [_line(rng, order[f]) for _ in range(rng.randint(1, 3))]
@@ -394,6 +399,90 @@ def _text(rng, cls, tbl, subset):
     return text, "+".join(sorted(set(shapes))) or "none"
 
 
+def _wf_record(rng, subs):
+    return [[s, _token(rng, s)] for s in subs]
+
+
+def _edits(rng, cls, tbl, build, malformed):
+    """0-3 edits of the built object.  Tracks which structured fields hold lists (and how
+    many records) so that indices are valid unless a malformed edit is wanted."""
+    order = dict(tbl)
+    state = {}     # lower-case field -> (spelling, number of records) for list-valued structured fields
+    plain = []
+    for k, v in build:
+        if "multi" in v and k.lower() in order:
+            state[k.lower()] = [k, len(v["multi"])]
+        elif "plain" in v and k.lower() not in order and k not in plain:
+            plain.append(k)
+    out = []
+    for _ in range(rng.choice([1, 1, 2, 2, 3])):
+        present = sorted(state)
+        absent = [f for f, _ in tbl if f not in state]
+        kind = rng.choice(["r", "s", "o", "a", "=", "=", "d", "d"])
+        bad = malformed and rng.random() < 0.5
+        if kind in "rsoa" and not present:
+            kind = "="
+        if kind in "rsoa":
+            f = rng.choice(present)
+            key = _spell(rng, f) if rng.random() < 0.5 else state[f][0]
+            nrec = state[f][1]
+            if kind == "r":
+                i = nrec + rng.randint(0, 2) if bad or nrec == 0 else rng.randrange(nrec)
+                out.append(["r", key, i, _wf_record(rng, order[f])])
+            elif kind == "s":
+                i = nrec + rng.randint(0, 1) if (bad and rng.random() < 0.4) or nrec == 0 else rng.randrange(nrec)
+                sub = rng.choice(order[f])
+                val = _token(rng, sub)
+                if bad:
+                    r = rng.random()
+                    if r < 0.3:
+                        sub = rng.choice([sub.swapcase(), sub.capitalize(), "extra"])
+                    elif r < 0.6:
+                        val = rng.choice(["a b", "a\nb", "", " ", "x\t"])
+                out.append(["s", key, i, sub, str(val)])
+            elif kind == "o":
+                out.append(["o", key, _wf_record(rng, order[f])])
+                if nrec == 0:
+                    break            # IndexError: nothing after this is executed
+            else:
+                rec = _wf_record(rng, order[f])
+                if bad:
+                    del rec[rng.randrange(len(rec))]
+                out.append(["a", key, rec])
+                state[f][1] += 1
+        elif kind == "=":
+            if absent and (rng.random() < 0.7 or not present):
+                f = rng.choice(absent)
+            elif present:
+                f = rng.choice(present)
+            else:
+                f = tbl[0][0]
+            key = _spell(rng, f)
+            if bad and rng.random() < 0.5:
+                k2 = rng.choice(["Comment", "X-Extra"])
+                out.append(["=", k2, {"plain": rng.choice(["ok", "a\n b", "a\nb", "x\n"])}])
+                continue
+            n = rng.choice([1, 1, 2, 3]) if not bad else rng.choice([0, 1])
+            out.append(["=", key, {"multi": [_wf_record(rng, order[f]) for _ in range(n)]}])
+            if f in state:
+                state[f][1] = n
+            else:
+                state[f] = [key, n]
+        else:
+            cands = [state[f][0] for f in present] + plain
+            if bad or not cands:
+                out.append(["d", rng.choice(["Nope", tbl[-1][0] + "-x"])])
+                break                # KeyError: nothing after this is executed
+            k = rng.choice(cands)
+            key = _spell(rng, k) if rng.random() < 0.5 else k
+            out.append(["d", key])
+            if k.lower() in state:
+                del state[k.lower()]
+            else:
+                plain.remove(k)
+    return out
+
+
 def generate(rng, n, tier):
     tables = _tables()
     k = 0
@@ -404,16 +493,23 @@ def generate(rng, n, tier):
         k = i // len(CLASSES)
         subset = _subsets(rng, cls, tbl, k)
         case = {"cls": cls, "behav": _behav(rng, cls), "plainrec": rng.random() < 0.5,
-                "build": None, "text": "", "kind": ""}
+                "build": None, "edits": [], "text": "", "kind": ""}
         if r < 0.6:
             case["build"] = _wf_build(rng, cls, tbl, subset)
             case["kind"] = "wf"
+            if rng.random() < 0.4:
+                case["edits"] = _edits(rng, cls, tbl, case["build"], False)
+                case["kind"] = "wf+edits"
         elif r < 0.64:
             case["build"] = _wf_build(rng, cls, tbl, subset or [tbl[0][0]], nrec=0)
             case["kind"] = "empty"
-        elif r < 0.8:
+        elif r < 0.76:
             case["build"] = _wf_build(rng, cls, tbl, subset)
             case["kind"] = "bad:" + _malform(rng, cls, tbl, case)
+        elif r < 0.8:
+            case["build"] = _wf_build(rng, cls, tbl, subset)
+            case["edits"] = _edits(rng, cls, tbl, case["build"], True)
+            case["kind"] = "bad:edit"
         else:
             case["text"], shape = _text(rng, cls, tbl, subset)
             case["kind"] = "text/" + shape
@@ -421,12 +517,25 @@ def generate(rng, n, tier):
 
 
 def from_json(j):
+    j = dict(j)
+    j.setdefault("edits", [])
+    j.setdefault("text", "")
+    j.setdefault("kind", "corpus")
+    j.setdefault("plainrec", False)
+    j.setdefault("behav", None)
+    j.setdefault("build", None)
     return j
 
 
-def _conv(v, plainrec):
+def _mk(plainrec):
     from debian import deb822
-    mk = (lambda kvs: dict((k, x) for k, x in kvs)) if plainrec else (lambda kvs: deb822.Deb822Dict([(k, x) for k, x in kvs]))
+    if plainrec:
+        return lambda kvs: dict((k, x) for k, x in kvs)
+    return lambda kvs: deb822.Deb822Dict([(k, x) for k, x in kvs])
+
+
+def _conv(v, plainrec):
+    mk = _mk(plainrec)
     if "multi" in v:
         return [mk(r) for r in v["multi"]]
     if "single" in v:
@@ -442,11 +551,32 @@ def _canon(v):
     return {"multi": [[[k, x] for k, x in d.items()] for d in v]}
 
 
+def _apply_edit(p, e, plainrec):
+    mk = _mk(plainrec)
+    op = e[0]
+    if op == "r":
+        p[e[1]][e[2]] = mk(e[3])
+    elif op == "s":
+        p[e[1]][e[2]][e[3]] = e[4]
+    elif op == "o":
+        lst = p[e[1]]
+        lst.pop(0)
+        lst.append(mk(e[2]))
+    elif op == "a":
+        p[e[1]].append(mk(e[2]))
+    elif op == "=":
+        p[e[1]] = _conv(e[2], plainrec)
+    elif op == "d":
+        del p[e[1]]
+    else:
+        raise RuntimeError("unknown edit %r" % (op,))
+
+
 def run_impl(case):
     from debian import deb822
     K = getattr(deb822, case["cls"])
     text = case["text"]
-    d1 = None
+    dumps = []
     if case["build"] is not None:
         p = K()
         if case["behav"] is not None:
@@ -460,10 +590,19 @@ def run_impl(case):
         except Exception as e:
             return {"stage": "build", "err": err_kind(e)}
         try:
-            d1 = p.dump()
+            dumps.append(p.dump())
         except Exception as e:
-            return {"stage": "dump1", "err": err_kind(e)}
-        text = d1
+            return {"stage": "dump", "dumps": dumps, "err": err_kind(e)}
+        for ed in case["edits"]:
+            try:
+                _apply_edit(p, ed, case["plainrec"])
+            except Exception as e:
+                return {"stage": "edit", "dumps": dumps, "err": err_kind(e)}
+            try:
+                dumps.append(p.dump())
+            except Exception as e:
+                return {"stage": "dump", "dumps": dumps, "err": err_kind(e)}
+        text = dumps[-1]
     raw = [[k, v] for k, v in deb822.Deb822(text).items()]
     q = K(text)
     if case["behav"] is not None:
@@ -476,72 +615,115 @@ def run_impl(case):
         d2 = {"ok": q.dump()}
     except Exception as e:
         d2 = {"err": err_kind(e)}
-    return {"stage": "full", "dump1": d1, "raw": raw, "parsed": parsed, "dump2": d2}
+    return {"stage": "full", "dumps": dumps, "raw": raw, "parsed": parsed, "dump2": d2}
 
 
-def _cq_rec(r):
-    return cq_list(["(%s, %s)" % (cq_str(k), cq_str(str(v))) for k, v in r])
+# ---- packed emission (coq/Deb822/Packed.v, MvCheck.t_case)
+
+def _t_rec(r):
+    return [[k, str(v)] for k, v in r]
 
 
-def _cq_val(v):
+def _t_val(v):
     if "multi" in v:
-        return "(BMulti %s)" % cq_list([_cq_rec(r) for r in v["multi"]])
+        return ["M", [_t_rec(r) for r in v["multi"]]]
     if "single" in v:
-        return "(BSingle %s)" % _cq_rec(v["single"])
-    return "(BPlain %s)" % cq_str(v["plain"])
+        return ["S", _t_rec(v["single"])]
+    return ["P", v["plain"]]
 
 
-def _cq_para(p):
-    return cq_list(["(%s, %s)" % (cq_str(k), _cq_val(v)) for k, v in p])
+def _t_para(p):
+    return [[k, _t_val(v)] for k, v in p]
+
+
+def _t_edit(e):
+    op = e[0]
+    if op == "r":
+        return ["r", e[1], int(e[2]), _t_rec(e[3])]
+    if op == "s":
+        return ["s", e[1], int(e[2]), e[3], str(e[4])]
+    if op in ("o", "a"):
+        return [op, e[1], _t_rec(e[2])]
+    if op == "=":
+        return ["=", e[1], _t_val(e[2])]
+    return ["d", e[1]]
+
+
+def _t_obs(obs):
+    st = obs["stage"]
+    if st == "behav":
+        return ["b", obs["err"]]
+    if st == "build":
+        return ["u", obs["err"]]
+    if st == "dump":
+        return ["D", list(obs["dumps"]), obs["err"]]
+    if st == "edit":
+        return ["E", list(obs["dumps"]), obs["err"]]
+    d2 = packed.ok(obs["dump2"]["ok"]) if "ok" in obs["dump2"] else packed.err(obs["dump2"]["err"])
+    return ["F", list(obs["dumps"]), [[k, v] for k, v in obs["raw"]], _t_para(obs["parsed"]), d2]
 
 
 def emit(case, obs):
-    st = obs["stage"]
-    if st == "behav":
-        o = "(ObsBehavErr %s)" % obs["err"]
-    elif st == "build":
-        o = "(ObsBuildErr %s)" % obs["err"]
-    elif st == "dump1":
-        o = "(ObsDump1Err %s)" % obs["err"]
-    else:
-        d2 = "(Ok %s)" % cq_str(obs["dump2"]["ok"]) if "ok" in obs["dump2"] else "(Err %s)" % obs["dump2"]["err"]
-        o = "(ObsFull %s %s %s %s)" % (cq_opt(obs["dump1"], cq_str),
-                                       cq_list(["(%s, %s)" % (cq_str(k), cq_str(v)) for k, v in obs["raw"]]),
-                                       _cq_para(obs["parsed"]), d2)
-    return "mk %s %s %s %s %s %s" % (case["cls"], cq_opt(case["behav"], cq_str), cq_bool(case["plainrec"]),
-                                     cq_opt(case["build"], _cq_para), cq_str(case["text"]), o)
+    tree = [CLASSES.index(case["cls"]),
+            None if case["behav"] is None else packed.some(case["behav"]),
+            bool(case["plainrec"]),
+            None if case["build"] is None else packed.some(_t_para(case["build"])),
+            [_t_edit(e) for e in case["edits"]],
+            case["text"],
+            _t_obs(obs)]
+    return "pc " + packed.pack(tree)
 
 
 def classify(case, obs):
     st = obs["stage"]
     if st == "full":
         res = "ok" if "ok" in obs["dump2"] else "dump2:" + obs["dump2"]["err"]
+    elif st in ("dump", "edit"):
+        res = "%s%d:%s" % (st, len(obs["dumps"]), obs["err"])
     else:
         res = "%s:%s" % (st, obs["err"])
     b = "" if case["cls"] != "Release" else "(%s)" % (case["behav"] or "unset")
     kind = case["kind"]
     if kind.startswith("text/"):
-        kind = "text"
+        kind = "text-clean" if "clean" in kind else "text"
     return "%s%s/%s/%s" % (case["cls"], b, kind, res)
 
 
 def nontrivial(case, obs):
-    if case["kind"] == "wf":
+    if case["kind"] in ("wf", "wf+edits"):
         return any("multi" in v and v["multi"] for _, v in case["build"])
     return True
 
 
+def _present_after(case):
+    """structured fields present (as lists) after the build and after each successful edit (harness-side estimate,
+    used only for the coverage report)"""
+    cur = [k.lower() for k, v in case["build"] if "multi" in v]
+    out = [tuple(sorted(set(cur)))]
+    for e in case["edits"]:
+        if e[0] == "=" and "multi" in e[2] and e[1].lower() not in cur:
+            cur.append(e[1].lower())
+        elif e[0] == "d" and e[1].lower() in cur:
+            cur.remove(e[1].lower())
+        out.append(tuple(sorted(set(cur))))
+    return out
+
+
 def extra_evidence(items):
-    """How many distinct subsets of structured fields were present, per class."""
+    """How many distinct subsets of structured fields were present at a dump, per class."""
     seen = {}
     for c, o in items:
-        if c["kind"] == "wf":
-            seen.setdefault(c["cls"], set()).add(tuple(sorted(k.lower() for k, v in c["build"] if "multi" in v)))
-    return {"distinct_field_subsets_in_wf_cases": {k: len(v) for k, v in sorted(seen.items())}}
+        if c["kind"] in ("wf", "wf+edits"):
+            for s in _present_after(c):
+                seen.setdefault(c["cls"], set()).add(s)
+    return {"distinct_field_subsets_dumped_in_wf_cases": {k: len(v) for k, v in sorted(seen.items())}}
 
 
 def shrink(case):
     b = case["build"]
+    eds = case.get("edits", [])
+    for i in range(len(eds)):
+        yield dict(case, edits=eds[:i] + eds[i + 1:])
     if b is not None:
         for i in range(len(b)):
             yield dict(case, build=b[:i] + b[i + 1:])
@@ -574,10 +756,12 @@ def shrink(case):
 
 
 def describe(case, obs):
-    return {"call": "p = %s(); [p.size_field_behavior = behav]; p[key] = records ...; d1 = p.dump(); "
-                    "q = %s(d1 or text); q.items(); q.dump()" % (case["cls"], case["cls"]),
+    return {"call": "p = %s(); [p.size_field_behavior = behav]; p[key] = records ...; d0 = p.dump(); "
+                    "for each edit (r: p[k][i] = rec, s: p[k][i][sub] = v, o: l = p[k]; l.pop(0); l.append(rec), "
+                    "a: p[k].append(rec), =: p[k] = value, d: del p[k]): apply it, dump again; "
+                    "q = %s(last dump, or text); q.items(); q.dump()" % (case["cls"], case["cls"]),
             "observed": obs,
-            "specified": "inside the domain (every present structured field a list of >= 1 complete records of "
-                         "non-empty whitespace-free values): d1 is the documented text with the size column "
-                         "right-aligned, q holds the same records in the same order, q.dump() == d1 — for every "
-                         "subset of the class's structured fields being present"}
+            "specified": "in every state inside the domain (every present structured field a list of >= 1 complete "
+                         "records of non-empty whitespace-free values): the dump succeeds and is the documented text "
+                         "with the size column right-aligned; q holds the same records in the same order and "
+                         "q.dump() equals the last dump - for every subset of the class's structured fields being present"}
